@@ -173,3 +173,132 @@ def TASKS(tier):     # noqa: F811
                               (n, n), role='framing', opts={'covers': ['round_trip']},
                        budget=100))
     return ts
+
+
+# ------------------------------------------------------------------------------------ demultiplexer loop
+
+class QueueTx(PyObj):
+    """flume::Sender of one local recipient (bounded queue, consumer arbitrarily slow): `send` blocks until there is
+    room and then succeeds; the non-blocking / timed variants may fail at any time and hand the message back"""
+    name = 'Sender'
+
+    def __init__(self, idx):
+        self.idx = idx
+        self.got = []
+        self.refused = 0
+
+    def trait_call(self, ex, trait, method, args):
+        if method == 'send':
+            self.got.append(args[1])
+            return ok(hlib.unit())
+        if method in ('try_send', 'send_timeout', 'send_deadline'):
+            if ex.choose(2, 'queue of recipient %d full' % self.idx) == 1:
+                self.refused += 1
+                if method == 'try_send':
+                    return err(Enum('TrySendError', 'Full', 0, [args[1]]))
+                return err(Enum('SendTimeoutError', 'Timeout', 0, [args[1]]))
+            self.got.append(args[1])
+            return ok(hlib.unit())
+        if method in ('is_full', 'is_empty'):
+            return ex.choose(2, method) == 1
+        if trait == 'Clone':
+            return self
+        raise Unsupported('QueueTx %s::%s' % (trait, method))
+
+
+class TcpStub(PyObj):
+    name = 'TcpStream'
+
+    def trait_call(self, ex, trait, method, args):
+        if method == 'peer_addr':
+            return err(Opaque('io::Error'))
+        if method in ('shutdown', 'set_nodelay', 'flush'):
+            return ok(hlib.unit())
+        raise Unsupported('TcpStub %s' % method)
+
+
+def demux_harness(w, n_endpoints, nmsgs):
+    """demux_thread: every message taken off the connection (remote_recv: decided under `framing`) reaches the queue of
+    exactly the recipient it is addressed to, and each recipient sees its messages in connection order"""
+    from mirsym.models_coll import MapModel
+    fs = [f for f in w.prog.functions if f.name.endswith('demux_thread') and 'closure' not in f.name]
+    if len(fs) != 1:
+        raise Unsupported('demux_thread not found')
+    demux = fs[0]
+    new_batch = w.impls[(None, 'NetworkMessage')]['new_batch'][0]
+    hlib.check_se_table(w)
+
+    def endpoint(r):
+        return hlib.mk_struct(w, 'ReceiverEndpoint', coord=hlib.coord(w, 2, 0, r), prev_block_id=Int('u64', 1))
+
+    def h(ex):
+        dests = [ex.choose(n_endpoints, 'dest of message %d' % j) if n_endpoints > 1 else 0 for j in range(nmsgs)]
+        if ex.env.get('native'):
+            runner, prof = ex.env['native']
+            ex.env['native_used'] = True
+            txt = runner('demux', [n_endpoints, nmsgs] + dests, timeout=60)[prof]
+            ex.env['native_out'] = txt
+            if txt == 'PANIC' or txt.startswith(('BADARGS', 'UNKNOWN', 'NORESULT')):
+                raise Unsupported('native driver: ' + txt)
+            secs = txt.replace(' TIMEOUT', '').split('|')
+            got = [[int(x) for x in s.split() if x != '-'] for s in secs]
+            judge(ex, dests, got, {'native': txt})
+            if 'TIMEOUT' in txt:
+                raise Violation('the real demultiplexer thread does not finish after the connection was closed (%s)' % txt,
+                                hlib._wit(ex))
+            return {'native': txt}
+        txs = [QueueTx(r) for r in range(n_endpoints)]
+        senders = MapModel('HashMap', [[endpoint(r), Agg('struct', 'channel::Sender', [txs[r]], ['0'])]
+                                       for r in range(n_endpoints)])
+        msgs = [ex.call_function(new_batch, [VecModel([hlib.se('Item', Int('u64', j + 1))]), hlib.coord(w, 1, 0, 0)])
+                for j in range(nmsgs)]
+        pos = [0]
+
+        def fake_remote_recv(ex, c, a):
+            from mirsym.models import some, none
+            if pos[0] >= nmsgs:
+                return none()
+            j = pos[0]
+            pos[0] += 1
+            return some(Agg('tuple', None, [endpoint(dests[j]), msgs[j]]))
+        ex.env['fn_overrides'] = {'remote_recv': fake_remote_recv}
+        coord = hlib.mk_struct(w, 'DemuxCoord', coord=hlib.mk_struct(w, 'BlockCoord', block_id=Int('u64', 2), host_id=Int('u64', 0)),
+                               prev_block_id=Int('u64', 1))
+        ex.call_function(demux, [coord, senders, TcpStub()])
+        got = []
+        for t in txs:
+            ids = []
+            for m in t.got:
+                data = deref(m).get('data')
+                els = data.fields[0].items if isinstance(data, Enum) else data.items
+                ids += [e.fields[0].v for e in els if e.variant == 'Item']
+            got.append(ids)
+        judge(ex, dests, got, {'dests': dests, 'delivered': got, 'refusals': [t.refused for t in txs]})
+        if any(len(g) > 1 for g in got):
+            hlib.cover(ex, 'several_to_one')
+        return {'dests': dests, 'delivered': got}
+
+    def judge(ex, dests, got, extra):
+        for r in range(n_endpoints):
+            want = [j + 1 for j, d in enumerate(dests) if d == r]
+            g = got[r] if r < len(got) else []
+            if sorted(g) != want:
+                raise Violation('recipient %d received %s, addressed to it: %s (lost, duplicated or misrouted message)' %
+                                (r, g, want), hlib._wit(ex), extra)
+            if g != want:
+                raise Violation('recipient %d received its messages out of connection order: %s instead of %s' % (r, g, want),
+                                hlib._wit(ex), extra)
+    return h
+
+
+_framing_tasks = TASKS
+
+
+def TASKS(tier):     # noqa: F811
+    ts = _framing_tasks(tier)
+    for ne, nm in ([(2, 3)] if tier == 'quick' else [(2, 4), (3, 3)]):
+        ts.append(Task('demux_%de_%dm' % (ne, nm), 'demux_harness', {'n_endpoints': ne, 'nmsgs': nm},
+                       bounds='demux_thread over a connection carrying %d messages addressed to any of %d local recipients '
+                              '(remote_recv stubbed: the framing is decided separately); recipient queues may refuse any '
+                              'non-blocking / timed send' % (nm, ne), role='demux', opts={'covers': ['several_to_one']}))
+    return ts
